@@ -681,54 +681,66 @@ Proof.
   assert (HvalA : forall n, In n A1' -> valid_param_name n = true).
   { intros n Hn. apply (Permutation_in _ Hperm) in Hn. unfold A1 in Hn. apply filter_In in Hn as [Hn _].
     apply HinA0 in Hn. rewrite forallb_forall in Hval. apply Hval. apply in_or_app. exact Hn. }
-  rewrite (comp_strs _ (fun n => str_in n required) (fun n => v_item (n, v_param n true))).
-  2:{ intros n Hn. fold (v_strs required). rewrite in_list. cbn [bind]. destruct (str_in n required); [|reflexivity].
-      rewrite attr_POK. cbn [bind]. rewrite Parameter_req by (apply HvalA; exact Hn). reflexivity. }
-  cbn [bind]. rewrite deref_list.
-  rewrite <- (map_map (fun n => (n, v_param n true)) v_item). fold (uni true (filter (fun n => str_in n required) A1')).
+  (* the four comprehensions, in whatever order the source has them (a candidate that does not fit makes the
+     script fail, and the next one is tried) *)
   set (ndc := filter (fun n => str_in n required) A1').
-  rewrite dict_of_items by (unfold uni; rewrite map_fst_uniform; apply NoDup_filter; exact HA1').
-  cbn [bind]. rewrite items_skeys. cbn [bind]. rewrite deref_view, iter_items_view. cbn [bind].
   set (al := map (fun p : pystr * bool => (fst p, v_param (fst p) (snd p))) bp).
   set (breq := bases_required bp).
   assert (Hal : map fst al = B) by (unfold al, B; rewrite map_map; reflexivity).
   set (pnd := fun x : pystr * pyval => (str_in (fst x) required || str_in (fst x) breq) && negb (str_in (fst x) consts)).
-  rewrite (comp_items _ pnd v_item).
-  2:{ intros [k v] _. unfold v_item at 1. cbn [fst snd]. unfold py_unpack. cbn [py_iter_items bind length Nat.eqb].
-      fold (v_strs required). fold (v_strs breq). rewrite !in_list. unfold v_keys at 1. rewrite deref_view. fold (v_keys consts).
-      rewrite in_keys. unfold pnd. cbn [fst snd py_and py_or py_not bind].
-      destruct (str_in k required); cbn [orb bind]; [|destruct (str_in k breq); cbn [bind]];
-        try (destruct (str_in k consts); reflexivity). }
-  cbn [bind]. rewrite deref_list.
-  assert (Hndb : NoDup (map fst (filter pnd al))).
-  { apply NoDup_fst_filter. rewrite Hal. exact HBd. }
-  rewrite dict_of_items by exact Hndb. cbn [bind]. rewrite dict_merge_skeys. cbn [bind].
-  rewrite deref_dict, values_skeys. cbn [bind]. rewrite deref_view, list_of_values. cbn [bind].
-  fold (v_strs names).
-  rewrite (comp_strs _ (fun n => negb (str_in n required) && negb (str_in n consts)) (fun n => v_item (n, v_param n false))).
-  2:{ intros n Hn. fold (v_strs required). rewrite in_list. unfold v_keys at 1. rewrite deref_view. fold (v_keys consts).
-      rewrite in_keys. cbn [py_and py_not bind]. destruct (str_in n required); cbn [negb andb bind]; [reflexivity|].
-      destruct (str_in n consts); cbn [negb bind]; [reflexivity|].
-      rewrite attr_POK. cbn [bind]. rewrite Parameter_opt; [reflexivity|].
-      rewrite forallb_forall in Hval. apply Hval. apply in_or_app. left. exact Hn. }
-  cbn [bind]. rewrite deref_list.
   set (dc := filter (fun n => negb (str_in n required) && negb (str_in n consts)) names).
-  rewrite <- (map_map (fun n => (n, v_param n false)) v_item). fold (uni false dc).
-  rewrite dict_of_items by (unfold uni; rewrite map_fst_uniform; apply NoDup_filter; exact HNd).
-  cbn [bind].
   set (pd := fun x : pystr * pyval => negb (str_in (fst x) required) && negb (str_in (fst x) breq) && negb (str_in (fst x) consts)).
-  rewrite (comp_items _ pd v_item).
-  2:{ intros [k v] Hin. unfold al in Hin. apply in_map_iff in Hin as [[k' fl] [E _]]. cbn [fst snd] in E. inversion E; subst k v.
-      unfold v_item at 1. cbn [fst snd]. unfold py_unpack. cbn [py_iter_items bind length Nat.eqb].
-      fold (v_strs required). fold (v_strs breq). rewrite !in_list. unfold v_keys at 1. rewrite deref_view. fold (v_keys consts).
-      rewrite in_keys. unfold pd. cbn [fst snd py_and py_or py_not bind].
-      destruct (str_in k' required); cbn [negb andb bind]; [reflexivity|].
-      destruct (str_in k' breq); cbn [negb andb bind]; [reflexivity|].
-      destruct (str_in k' consts); cbn [negb andb bind]; [reflexivity|].
-      destruct addl; cbn [py_truthy bind]; reflexivity. }
-  cbn [bind]. rewrite deref_list.
-  rewrite dict_of_items by (apply NoDup_fst_filter; rewrite Hal; exact HBd). cbn [bind]. rewrite dict_merge_skeys. cbn [bind].
-  rewrite deref_dict, values_skeys. cbn [bind]. rewrite deref_view, list_of_values. cbn [bind].
+  match goal with |- context [dv_comp ?F] =>
+    assert (HcA : dv_comp F (v_strs A1') = Ok (map v_item (uni true ndc)))
+      by (unfold uni; rewrite map_map;
+          apply (comp_strs _ (fun n => str_in n required) (fun n => v_item (n, v_param n true)));
+          intros n Hn; fold (v_strs required); rewrite in_list; cbn [bind]; destruct (str_in n required); [|reflexivity];
+          rewrite attr_POK; cbn [bind]; rewrite Parameter_req by (apply HvalA; exact Hn); reflexivity)
+  end.
+  match goal with |- context [dv_comp ?F] =>
+    assert (HcB : dv_comp F (map v_item al) = Ok (map v_item (filter pnd al)))
+      by (apply (comp_items _ pnd v_item); intros [k v] _; unfold v_item at 1; cbn [fst snd]; unfold py_unpack;
+          cbn [py_iter_items bind length Nat.eqb]; fold (v_strs required); fold (v_strs breq); rewrite !in_list;
+          unfold v_keys at 1; rewrite deref_view; fold (v_keys consts); rewrite in_keys; unfold pnd;
+          cbn [fst snd py_and py_or py_not bind];
+          destruct (str_in k required); cbn [orb bind]; [|destruct (str_in k breq); cbn [bind]];
+          try (destruct (str_in k consts); reflexivity))
+  end.
+  match goal with |- context [dv_comp ?F] =>
+    assert (HcC : dv_comp F (v_strs names) = Ok (map v_item (uni false dc)))
+      by (unfold uni; rewrite map_map;
+          apply (comp_strs _ (fun n => negb (str_in n required) && negb (str_in n consts)) (fun n => v_item (n, v_param n false)));
+          intros n Hn; fold (v_strs required); rewrite in_list; unfold v_keys at 1; rewrite deref_view; fold (v_keys consts);
+          rewrite in_keys; cbn [py_and py_not bind]; destruct (str_in n required); cbn [negb andb bind]; [reflexivity|];
+          destruct (str_in n consts); cbn [negb bind]; [reflexivity|];
+          rewrite attr_POK; cbn [bind]; rewrite Parameter_opt; [reflexivity|];
+          rewrite forallb_forall in Hval; apply Hval; apply in_or_app; left; exact Hn)
+  end.
+  match goal with |- context [dv_comp ?F] =>
+    assert (HcD : dv_comp F (map v_item al) = Ok (map v_item (filter pd al)))
+      by (apply (comp_items _ pd v_item); intros [k v] Hin; unfold al in Hin; apply in_map_iff in Hin as [[k' fl] [E _]];
+          cbn [fst snd] in E; inversion E; subst k v;
+          unfold v_item at 1; cbn [fst snd]; unfold py_unpack; cbn [py_iter_items bind length Nat.eqb];
+          fold (v_strs required); fold (v_strs breq); rewrite !in_list; unfold v_keys at 1; rewrite deref_view; fold (v_keys consts);
+          rewrite in_keys; unfold pd; cbn [fst snd py_and py_or py_not bind];
+          destruct (str_in k' required); cbn [negb andb bind]; [reflexivity|];
+          destruct (str_in k' breq); cbn [negb andb bind]; [reflexivity|];
+          destruct (str_in k' consts); cbn [negb andb bind]; [reflexivity|];
+          destruct addl; cbn [py_truthy bind]; reflexivity)
+  end.
+  assert (DA : dv_dict_of so (PList (map v_item (uni true ndc))) = Ok (PDict (skeys (uni true ndc))))
+    by (apply dict_of_items; unfold uni; rewrite map_fst_uniform; apply NoDup_filter; exact HA1').
+  assert (DB : dv_dict_of so (PList (map v_item (filter pnd al))) = Ok (PDict (skeys (filter pnd al))))
+    by (apply dict_of_items; apply NoDup_fst_filter; rewrite Hal; exact HBd).
+  assert (DC : dv_dict_of so (PList (map v_item (uni false dc))) = Ok (PDict (skeys (uni false dc))))
+    by (apply dict_of_items; unfold uni; rewrite map_fst_uniform; apply NoDup_filter; exact HNd).
+  assert (DD : dv_dict_of so (PList (map v_item (filter pd al))) = Ok (PDict (skeys (filter pd al))))
+    by (apply dict_of_items; apply NoDup_fst_filter; rewrite Hal; exact HBd).
+  fold al.
+  repeat first [ progress cbn [bind dv_iter] | rewrite deref_list | rewrite deref_dict | rewrite deref_view
+               | rewrite iter_items_view | rewrite items_skeys | rewrite values_skeys | rewrite list_of_values
+               | rewrite dict_merge_skeys | rewrite HcA | rewrite HcB | rewrite HcC | rewrite HcD
+               | rewrite DA | rewrite DB | rewrite DC | rewrite DD | progress fold (v_strs names) ].
   (* every entry of the bases' dict is the parameter its name and flag determine *)
   assert (Hal_in : forall n v, In (n, v) al -> exists fl, In (n, fl) bp /\ v = v_param n fl).
   { intros n v Hin. unfold al in Hin. apply in_map_iff in Hin as [[k fl] [E Hin]]. cbn [fst snd] in E. inversion E; subst.
